@@ -467,6 +467,8 @@ class NumericValue(Value):
             self.int = value
             if self.int > 65535:
                 raise ValueTypeError("integer value cannot exceed 65535")
+            if self.int < -32768:
+                raise ValueTypeError("integer value cannot be below -32768")
             if self.int < 0:
                 self.negative = True
                 self.int *= -1
